@@ -208,6 +208,26 @@ namespace
             c.rel_tol = 1e-8;
             out.push_back(c);
           }
+    // the model starting below the surface (model min depth m): the distance to the ridge is measured on the sphere through the top of the model, radius R - m
+    for (double m : {3e4, 6e4}) for (double lr : {2.0, 179.0})
+        {
+          Case c; c.family = "temperature/half space model (spherical)"; c.label = "oceanic plate, ridge along the meridian " + num(lr) + ", model min depth " + num(m);
+          c.spherical = true;
+          c.world = world(globals(true), {area_feature(1, true, 0, "\"temperature models\":[{\"model\":\"half space model\",\"min depth\":" + num(m) + ",\"max depth\":1.5e5,\"top temperature\":280,\"bottom temperature\":1600,\"spreading velocity\":0.04,"
+                                                       "\"ridge coordinates\":[[[" + num(lr) + ",-10],[" + num(lr) + ",10]]]}]", lr - 6, lr + 4)});
+          for (double dl : {-5.0, -2.0, -0.25, 0.5, 3.0}) for (double d : {1e4, m - 1e3, m + 1e3, 1e5, 1.49e5, 1.6e5}) c.probes.push_back({lr + dl, 0.0, d});
+          c.request = {{{1,0,0}}};
+          c.expect = [=](const Probe &p)
+          {
+            Expect e; e.defined = true;
+            if (p.depth < m || p.depth > 1.5e5) { e.value = background(p.depth); return e; }
+            const LD dist = (R_EARTH - static_cast<LD>(m)) * fabsl(static_cast<LD>(p.x) - lr) * PIl / 180, age = dist / (0.04L / YEAR);
+            e.value = 1600 + (280 - 1600.0L) * erfcl(static_cast<LD>(p.depth) / (2 * sqrtl(G_KAPPA * age)));
+            return e;
+          };
+          c.rel_tol = 1e-8;
+          out.push_back(c);
+        }
     // the same with the ridge along the equator: the closest ridge point of (lon, lat) is (lon, 0), the distance R * |lat| and the velocity interpolated linearly in longitude
     for (double lr : {2.0, 179.0, -179.0, 350.0}) for (double v0 : {0.03, 0.06}) for (double v1 : {0.03, 0.09})
           {
@@ -541,6 +561,15 @@ namespace
                     return e;
                   });
               }
+            for (unsigned k = 0; k < 3; ++k)
+              {
+                const double V[3] = {0.011, -0.022, 0.033};
+                const double vk = V[k];
+                add("velocity/uniform raw/model range given at points/" + std::to_string(k), "velocity (0.011,-0.022,0.033)", "\"velocity models\":[{\"model\":\"uniform raw\",\"velocity\":[0.011,-0.022,0.033]" + rj + "}]", {{{5,0,0}}},
+                    [=](const Probe &p) { Expect e; e.defined = true; e.value = in_range(p) ? static_cast<LD>(vk) : 0.0L; return e; });
+              }
+            add("grains/uniform/model range given at points", "grain size 0.25", "\"grains models\":[{\"model\":\"uniform\",\"compositions\":[0],\"Euler angles z-x-z\":[[0,0,0]],\"grain sizes\":[0.25]" + rj + "}]", {{{3,0,1}}},
+                [=](const Probe &p) { Expect e; e.defined = true; e.value = in_range(p) ? 0.25L : 0.0L; return e; });
             add("composition/uniform/model range given at points", "composition 1 fraction 0.75", "\"composition models\":[{\"model\":\"uniform\",\"compositions\":[1],\"fractions\":[0.75]" + rj + "}]", {{{2,1,0}}},
                 [=](const Probe &p) { Expect e; e.defined = true; e.value = in_range(p) ? 0.75L : 0.0L; return e; });
           }
